@@ -58,6 +58,12 @@ Proof.
   apply plain_char_facts in Hc as (_ & P & _ & Q). cbn [flat_map display_char]. rewrite Q, P. cbn [app]. f_equal. now apply IH.
 Qed.
 
+Lemma plain_no_pu l : plain l = true -> existsb is_private_use l = false.
+Proof.
+  induction l as [|c r IH]; [reflexivity|]. intros H. apply plain_cons in H as [Hc Hr].
+  apply plain_char_facts in Hc as (_ & P & _). cbn [existsb]. now rewrite P, (IH Hr).
+Qed.
+
 Lemma literal_plain l : plain l = true -> literal_value l = Some (mkStr l QDouble).
 Proof.
   intros H. unfold literal_value. rewrite (store_plain l H). cbn [option_map]. unfold pref_dquotes. cbn [s_val s_q].
@@ -69,7 +75,7 @@ Lemma emit_plain l : plain l = true ->
              length (s_val lv) = length (css_decode l).
 Proof.
   intros H. exists (mkStr l QDouble). split; [now apply literal_plain|]. split.
-  - unfold css_display. cbn [s_q s_val quote_char]. now rewrite (display_body_plain l H).
+  - unfold css_display. cbn [s_q s_val quote_char]. now rewrite (display_body_flat _ _ (plain_no_pu l H)), (display_body_plain l H).
   - rewrite (decode_plain l (plain_no_backslash l H)). split; reflexivity.
 Qed.
 
@@ -116,9 +122,17 @@ Lemma refuted_quote_unquote_newline :
 Proof. eexists. eexists. repeat split; vm_compute; reflexivity. Qed.
 
 Definition w_pu : list N := [57344; 49].                    (* U+E000 followed by the digit 1 *)
-Lemma refuted_private_use :
-  exists lv b, literal_value w_pu = Some lv /\ token_body (css_display lv) = Some b /\
-               css_decode b = [917505] /\ css_decode w_pu = w_pu.
+(* 71d4ea9: the hex escape written for a private-use character is terminated before a hex digit or space *)
+Lemma private_use_example :
+  exists lv, literal_value w_pu = Some lv /\ css_display lv = [34; 92; 101; 48; 48; 48; 32; 49; 34] /\
+             token_denotes (css_display lv) (css_decode w_pu) = true.
+Proof. eexists. repeat split; vm_compute; reflexivity. Qed.
+
+(* ... but not before a tab, which the CSS reader also swallows after a hex escape *)
+Definition w_put : list N := [57344; 9].
+Lemma refuted_private_use_tab :
+  exists lv b, literal_value w_put = Some lv /\ token_body (css_display lv) = Some b /\
+               css_decode b = [57344] /\ css_decode w_put = w_put.
 Proof. eexists. eexists. repeat split; vm_compute; reflexivity. Qed.
 
 Definition w_sp : list N := [97; 92; 32].                   (* a, backslash, space *)
